@@ -124,6 +124,10 @@ def handle (fields : List String) : String :=
         let sa := showM a
         if sa != showM b then "out-of-fuel" else sa ++ "\t" ++ a.str
       | _, _ => "unmodelled"
+  | ["m.tokens", e] => withExpr e fun x =>
+      match x.run fuelB with
+      | some a => showItem (.group (M.items a))
+      | none => "unmodelled"
   | ["m.eval", e, env] => withExpr e fun x =>
       match x.run fuelB with
       | some a =>
